@@ -66,6 +66,10 @@ func c07Case(t *testing.T, id int, seed uint64, out *Out) {
 		}
 		return len(plans) - 1
 	}
+	if r.Chance(60) {
+		// an early entry of the other reference (annotations may also name it)
+		addPush(pushPlan{ref: other, valid: r.Chance(85), same: -1})
+	}
 	if r.Chance(55) {
 		// structured episodes: good, bad+, revoke (maybe incomplete), fix (maybe wrong tree / skipped / unauthorized)
 		for len(plans) < k {
@@ -164,6 +168,33 @@ func c07Case(t *testing.T, id int, seed uint64, out *Out) {
 			for _, ci := range covered {
 				ents = append(ents, pushEntry[ci])
 			}
+			// sometimes the annotation also names an entry of the other reference (or an early
+			// entry that a from-entry verification leaves out of range), listed in any position
+			if r.Chance(25) && i > 0 {
+				ents = append(ents, pushEntry[r.Intn(i+1)])
+			}
+			for a := len(ents) - 1; a > 0; a-- {
+				b2 := r.Intn(a + 1)
+				ents[a], ents[b2] = ents[b2], ents[a]
+			}
+			if r.Chance(60) {
+				// an entry of ANOTHER reference listed first
+				for ci := i; ci >= 0; ci-- {
+					if plans[ci].ref != plans[covered[0]].ref {
+						ents = append([]int{pushEntry[ci]}, ents...)
+						break
+					}
+				}
+			}
+			dedup := []int{}
+			seenE := map[int]bool{}
+			for _, e := range ents {
+				if !seenE[e] {
+					seenE[e] = true
+					dedup = append(dedup, e)
+				}
+			}
+			ents = dedup
 			if r.Bool() || len(ents) == 1 {
 				b.Annotate(ents, r.Chance(92), ip(2))
 			} else {
